@@ -85,6 +85,14 @@ def main():
             EXPECT["seeded-" + key] = (SEEDED.get(key, [key.split("-")[0]]), ["C08" if key.startswith(("C09", "C12")) else "C09"])
     res_path = os.path.join(VERIF, "seeded" if "--seeded" in sys.argv else "mutants", "RESULTS.json")
     results = json.load(open(res_path)) if os.path.exists(res_path) else {}
+    # --shard i/n: every n-th change, with a private scratch area, so that several can run side by side
+    shard = next((a for a in sys.argv[1:] if a.startswith("--shard=")), None)
+    env = dict(os.environ)
+    if shard:
+        i, n = [int(x) for x in shard.split("=")[1].split("/")]
+        patches = patches[i::n]
+        env["MUTANT_BASE"] = "/tmp/bita-mut-%d" % i
+    no_controls = "--no-controls" in sys.argv
     for patch in patches:
         name = os.path.splitext(os.path.basename(patch))[0]
         if args and not any(a in name for a in args):
@@ -94,8 +102,10 @@ def main():
             print("no expectation for", name)
             continue
         owners, controls = EXPECT[key]
+        if no_controls:
+            controls = []
         t0 = time.time()
-        r = subprocess.run([sys.executable, os.path.join(HERE, "mutant.py"), patch] + owners + controls, capture_output=True, text=True)
+        r = subprocess.run([sys.executable, os.path.join(HERE, "mutant.py"), patch] + owners + controls, capture_output=True, text=True, env=env)
         try:
             out = json.loads(r.stdout.strip().splitlines()[-1])["results"]
         except Exception:
@@ -104,7 +114,13 @@ def main():
         caught = [p for p in owners if str(out.get(p, "")).startswith("CAUGHT")]
         noisy = [p for p in controls if not str(out.get(p, "")) == "missed"]
         print("%-62s caught by %-16s missed by %-12s control alarms %s" % (name[:62], ",".join(caught) or "-", ",".join(p for p in owners if p not in caught) or "-", ",".join(noisy) or "-"), flush=True)
-        json.dump(results, open(res_path, "w"), indent=1)
+        # several shards share the results file: merge under a lock
+        import fcntl
+        with open(res_path + ".lock", "w") as lk:
+            fcntl.flock(lk, fcntl.LOCK_EX)
+            cur = json.load(open(res_path)) if os.path.exists(res_path) else {}
+            cur[name] = results[name]
+            json.dump(cur, open(res_path, "w"), indent=1)
 
 
 if __name__ == "__main__":
